@@ -115,6 +115,13 @@ func (b *backend) SaveDevicesBillingStat(stream grpc.ClientStreamingServer[backe
 	}
 
 	c.committed = true
+	if fault == "ok-no-message" {
+		// The call ends with OK and without a response message: the client
+		// sees its stream end, and the batch is delivered all the same.
+		b.s.Fault("backend-ok-without-message")
+
+		return nil
+	}
 
 	return stream.SendAndClose(&emptypb.Empty{})
 }
@@ -188,6 +195,9 @@ func runC16(s *kernel.Sim, cfg string) {
 			b.billFault = kernel.Pick(t, []string{"before", "middle", "end", "deadline"}, "fault-kind")
 			b.billAt = t.Range(1, 3, "fault-at")
 		}
+		if b.billFault == "" && t.Chance(1, 4, "ok-without-message") {
+			b.billFault = "ok-no-message"
+		}
 		if forceEarly {
 			b.billFault, b.billAt = "ok-early", t.Range(1, 3, "fault-at")
 		}
@@ -204,6 +214,13 @@ func runC16(s *kernel.Sim, cfg string) {
 		// failure (on a send or on the final receive): kept out of the trace.
 		s.Logf("refresh (backend fault %q): failed=%v backend saw call=%v", fault, rerr != nil, call != nil)
 		if rerr != nil {
+			if call != nil && call.committed && !call.early {
+				// (No message is lost on this network: the client has seen
+				// the call end with OK.)
+				s.Failf("C16/conservation", "an upload the backend accepted in full was reported as failed: the batch is kept and will be delivered again",
+					"backend behaviour %q, the backend took all %d records and ended the call with OK, Refresh returned %v", fault, len(call.got), rerr)
+			}
+
 			return
 		}
 		if call == nil {
